@@ -97,6 +97,13 @@ PROPS = {
              "non-trivial = a token request was made after a completed reconcile (or a cross-namespace start-up was judged); distinct = canonical event trace",
              {"runs": 4000, "budget_s": 30}, {"runs": 400000, "budget_s": 900},
              must={"all": ["token-requests-after-reconcile", "runs-with-rotation", "cross-namespace-start-ups", "k8s-event:deleting", "k8s-event:remove-key", "k8s-event:empty", "k8s-event:delete"]}),
+    "C20": P("plans = (inline CA | CA file | neither) x skip-verify (absent, true, \"true\", false, \"false\") x refresh interval (0, 1 s ... 1 h) x server certificate chaining to CA1, CA2 or an unknown CA, "
+             "with histories of CA-file rewrites (CA1, CA2, both, unknown, torn, garbage, empty, deleted), server certificate changes, clock advances around the poll instants, handshake probes by "
+             "clients built with NewHTTPClient from the real pool, logins through Check, and same-settings pointer checks; every seventh plan re-registers a watcher for the same file id several times "
+             "and counts reads/callbacks of the superseded ones; expectation computed with crypto/x509 from the file content as of the last poll; "
+             "non-trivial = at least one handshake was attempted; distinct = event log",
+             {"runs": 3000, "budget_s": 35}, {"runs": 300000, "budget_s": 900},
+             must={"all": ["handshakes-judged:ok", "handshakes-judged:fail", "handshakes-after-a-rotation", "login-handshakes", "watchers-superseded", "same-config-checks", "ca-file:torn", "ca-file:delete"]}),
 }
 
 
